@@ -20,11 +20,12 @@ import (
 // histories from the same initial disk, plus permuted directory traversal.
 
 type C08Params struct {
-	Cmd     string       `json:"cmd"`    // update | compare | compare-gh | format | format-check
-	Orders  [][]int      `json:"orders"` // permutations of the addressable files (indices into walk order)
-	DirPlan []simrt.Plan `json:"dir_plans"`
-	Plans   []simrt.Plan `json:"plans"`
-	Probe   string       `json:"probe"` // which cross-file probe the world contains
+	Cmd       string       `json:"cmd"`    // update | compare | compare-gh | format | format-check
+	Orders    [][]int      `json:"orders"` // permutations of the addressable files (indices into walk order)
+	DirPlan   []simrt.Plan `json:"dir_plans"`
+	Plans     []simrt.Plan `json:"plans"`
+	Probe     string       `json:"probe"` // which cross-file probe the world contains
+	RulesPath string       `json:"rules_path"`
 	// PreUpdate: targets (indices in sorted order) brought up to date before every history, so that compare sees a mix of current and stale rules
 	PreUpdate []int `json:"pre_update,omitempty"`
 	// PreFormat: every history starts from the tree formatted with `format --all`, so that format --check has nothing to report but its lint
@@ -35,7 +36,9 @@ func genC08(t *rapid.T, tier string) (*World, any) {
 	w := NewWorld()
 	p := &C08Params{}
 	p.Cmd = pick(t, []string{"update", "update", "compare", "compare-gh", "format", "format-check"}, "cmd")
-	rf := &RuleFile{Path: "crs/rules/REQUEST-942-APPLICATION-ATTACK-SQLI.conf"}
+	// any name that carries -942- addresses the rules file, whatever stands before it
+	rf := &RuleFile{Path: "crs/rules/" + pick(t, []string{"REQUEST-942-APPLICATION-ATTACK-SQLI.conf", "REQUEST-942-APPLICATION-ATTACK-SQLI.conf", "CUSTOM-RULES-942-SQLI.conf", "RESPONSE-942-X.conf", "a-b-c-942-d.conf"}, "rulesname")}
+	p.RulesPath = rf.Path
 	ids := []string{"942100", "942110", "942120", "942130", "942140", "942150"}
 	nr := drawInt(t, 2, 5, "nrules")
 	type tgt struct {
@@ -264,7 +267,10 @@ func evalC08(sc *Scenario, sim *Sim) ([]Violation, bool, string) {
 	}
 	sb := sim.NewSandbox(sc.World)
 	defer sb.Close()
-	rulesPath := "crs/rules/REQUEST-942-APPLICATION-ATTACK-SQLI.conf"
+	rulesPath := p.RulesPath
+	if rulesPath == "" {
+		rulesPath = "crs/rules/REQUEST-942-APPLICATION-ATTACK-SQLI.conf"
+	}
 	items := walkItems(sb, p.Cmd)
 	restore := func() {
 		sb.Restore(sc.World)
